@@ -4,6 +4,7 @@ from typing import TYPE_CHECKING
 from typing import Any
 from typing import Dict
 from typing import List
+from typing import Tuple
 
 from .callbacks import SPECS_ALL
 from .callbacks import SPECS_SAFE
@@ -85,6 +86,10 @@ class StateMachine(metaclass=StateMachineMetaclass):
         self._listeners: List[Any] = []
         """Listeners that provides attributes to be used as callbacks."""
 
+        self._listener_passes: List[Tuple[Any, ...]] = [tuple(listeners or ())]
+        """The listeners given to the constructor, then those of each `add_listener` call: a copy
+        attaches them the same way."""
+
         if self._abstract:
             raise InvalidDefinition(_("There are no states or transitions."))
 
@@ -137,14 +142,20 @@ class StateMachine(metaclass=StateMachineMetaclass):
 
     def __setstate__(self, state):
         listeners = state.pop("_listeners")
+        passes = state.pop("_listener_passes", None) or [tuple(listeners)]
         rtc = state.pop("_rtc")
         self.__dict__.update(state)
         self._callbacks = CallbacksRegistry()
         self._states_for_instance: Dict[State, State] = {}
 
         self._listeners: List[Any] = []
+        self._listener_passes = [passes[0]]
 
-        self._register_callbacks(list(listeners))
+        # as the original did: the constructor's listeners together with the machine and the
+        # model, then one pass per `add_listener` call
+        self._register_callbacks(list(passes[0]))
+        for late in passes[1:]:
+            self.add_listener(*late)
         self._engine = self._get_engine(rtc)
         self._engine.start()
 
@@ -232,6 +243,7 @@ class StateMachine(metaclass=StateMachineMetaclass):
             :ref:`listeners`.
         """
         self._remember_listeners(listeners)
+        self._listener_passes.append(tuple(listeners))
         return self._add_listener(
             Listeners.from_listeners(Listener.from_obj(o) for o in listeners),
             allowed_references=SPECS_SAFE,
